@@ -140,6 +140,11 @@ class ImmutableDict(Mapping[Any, Any]):
 
         return self._hash
 
+    def __reduce__(self) -> Any:
+        """Pickle through the constructor so that the hash is recomputed by the process that loads the object."""
+
+        return self.__class__, (self._d,)
+
     def __repr__(self) -> str:  # pragma: no cover
         """Representation."""
 
